@@ -923,3 +923,660 @@ Proof.
   - intros ex v We Hev Hk. apply (cm_eval_sound _ cm ex v (wfb_wf _ We) (proj2 (proj2 Gcm))); [|exact Hev].
     intros x cx Hx Hgx. exact (proj2 Dcm x cx Hgx (Hk x Hx)).
 Qed.
+
+(* ================================================================== the remap pass is total (the repaired defect) *)
+Lemma in_lookup_some {S0} (m : list (floc * S0)) l s : In (l, s) m -> FixedPoint.lookup floc S0 floc_eqb m l <> None.
+Proof.
+  induction m as [|[k v] t IH]; cbn [In FixedPoint.lookup]; [tauto|].
+  intros [[= -> ->]|H].
+  - assert (floc_eqb l l = true) by (apply floc_eqb_eq; reflexivity). rewrite H. discriminate.
+  - destruct (floc_eqb k l); [discriminate|auto].
+Qed.
+
+(* whenever the fixed point is reached, constants() returns a map: no index panic, no error, whatever
+   blocks are unreachable from the entry *)
+Theorem constants_remap_total f max m : cfg_inv (f_cfg f) = true -> srcs_wf f = true ->
+  constants_states max f = Ok m -> exists r, remap f m m = Ok r.
+Proof.
+  intros Hinv Hsrc Hst.
+  destruct (constants_states_facts f max m Hinv Hsrc Hst) as (e & eb & He & Hb & Hdom & _).
+  pose proof (proj1 (find_block_some _ _ _ Hb)) as Hin.
+  assert (G : forall keys0, (forall l s, In (l, s) keys0 -> In (l, s) m) -> exists r, remap f m keys0 = Ok r).
+  { induction keys0 as [|[l s] t IH]; intros Hsub; [eexists; reflexivity|]. cbn [remap].
+    assert (Hr : reachL f (block_first_loc eb) l).
+    { apply Hdom. apply (in_lookup_some m l s). apply Hsub. left. reflexivity. }
+    pose proof (reach_valid f Hinv eb Hin l Hr) as Hv.
+    unfold remap_one. rewrite (floc_apply_valid f l Hv). cbn [bind]. rewrite (il_from_ok f Hinv eb Hin l Hr). cbn [bind].
+    destruct IH as (r & Hr'); [intros l0 s0 H0; apply Hsub; right; exact H0|]. rewrite Hr'. cbn [bind]. eexists; reflexivity. }
+  apply G. auto.
+Qed.
+
+(* ================================================================== exactness of the solution on def_assigned functions *)
+(* pointwise order: more keys, values equal or raised to Top *)
+Definition vle (x y : cst) : Prop := x = y \/ y = CTop.
+Definition ple (a b : cmap) : Prop := forall k x, cm_get a k = Some x -> exists y, cm_get b k = Some y /\ vle x y.
+Definition ople (a b : option cmap) : Prop :=
+  match a, b with Some x, Some y => ple x y | Some _, None => False | None, _ => True end.
+
+Lemma vle_refl x : vle x x. Proof. left. reflexivity. Qed.
+Lemma vle_trans x y z : vle x y -> vle y z -> vle x z.
+Proof. intros [H1|H1] [H2|H2]; subst; unfold vle; auto. Qed.
+Lemma ple_refl a : ple a a.
+Proof. intros k x H. exists x. split; [exact H|apply vle_refl]. Qed.
+Lemma ple_trans a b c : ple a b -> ple b c -> ple a c.
+Proof.
+  intros H1 H2 k x Hk. destruct (H1 k x Hk) as (y & Hy & L1). destruct (H2 k y Hy) as (z & Hz & L2).
+  exists z. split; [exact Hz|eapply vle_trans; eassumption].
+Qed.
+Lemma ple_nil a : ple [] a.
+Proof. intros k x H. discriminate H. Qed.
+
+Lemma jfold_right_exact a b s y : NoDup (keys b) -> cm_get b s = Some y ->
+  forall r, cm_get r s = cm_get a s ->
+  cm_get (fold_left (jstep a) b r) s =
+    match cm_get a s with Some c => Some (if cst_eqb c y then c else CTop) | None => Some y end.
+Proof.
+  induction b as [|[k v] t IH]; intros Hn Hb r Hr; [discriminate|].
+  cbn [keys map fst] in Hn. inversion Hn as [|? ? Hnot Hn']; subst.
+  cbn [cm_get] in Hb. cbn [fold_left]. destruct (scalar_eqb k s) eqn:E.
+  - apply scalar_eqb_eq in E. subst k. injection Hb as ->.
+    rewrite jfold_other by exact Hnot. unfold jstep. cbn [fst snd].
+    destruct (cm_get a s) as [c|] eqn:Ea.
+    + destruct (cst_eqb c y) eqn:Ec; [exact Hr|]. rewrite cm_get_set, scalar_eqb_refl. reflexivity.
+    + rewrite cm_get_set, scalar_eqb_refl. reflexivity.
+  - apply IH; [exact Hn'|exact Hb|]. rewrite jstep_other by exact E. exact Hr.
+Qed.
+
+Lemma cm_get_join a b k : NoDup (keys b) ->
+  cm_get (cm_join a b) k =
+    match cm_get a k, cm_get b k with
+    | Some x, Some y => Some (if cst_eqb x y then x else CTop)
+    | Some x, None => Some x
+    | None, Some y => Some y
+    | None, None => None
+    end.
+Proof.
+  intros Hn. rewrite cm_join_fold. destruct (cm_get b k) as [y|] eqn:Eb.
+  - rewrite (jfold_right_exact a b k y Hn Eb a eq_refl). destruct (cm_get a k); reflexivity.
+  - rewrite jfold_other by (apply cm_get_none; exact Eb). destruct (cm_get a k); reflexivity.
+Qed.
+
+Lemma ple_join a a' b b' : NoDup (keys b) -> NoDup (keys b') -> ple a a' -> ple b b' -> ple (cm_join a b) (cm_join a' b').
+Proof.
+  intros Nb Nb' Ha Hb k v Hk. rewrite cm_get_join in Hk by exact Nb. rewrite cm_get_join by exact Nb'.
+  destruct (cm_get a k) as [x|] eqn:Eak; destruct (cm_get b k) as [y|] eqn:Ebk; try discriminate Hk; injection Hk as <-.
+  - destruct (Ha k x Eak) as (x' & -> & Lx). destruct (Hb k y Ebk) as (y' & -> & Ly). eexists. split; [reflexivity|].
+    destruct (cst_eqb x y) eqn:E1; destruct (cst_eqb x' y') eqn:E2; try (right; reflexivity).
+    + exact Lx.
+    + apply cst_eqb_eq in E2. subst y'. destruct Lx as [-> | ->]; [|right; reflexivity].
+      destruct Ly as [-> | ->]; [rewrite (proj2 (cst_eqb_eq _ _) eq_refl) in E1; discriminate|right; reflexivity].
+  - destruct (Ha k x Eak) as (x' & -> & Lx). destruct (cm_get b' k) as [y'|]; eexists; (split; [reflexivity|]); [|exact Lx].
+    destruct (cst_eqb x' y'); [exact Lx|right; reflexivity].
+  - destruct (Hb k y Ebk) as (y' & -> & Ly). destruct (cm_get a' k) as [x'|]; eexists; (split; [reflexivity|]); [|exact Ly].
+    destruct (cst_eqb x' y') eqn:E; [|right; reflexivity]. apply cst_eqb_eq in E. subst. exact Ly.
+Qed.
+Lemma ple_join_r a b : NoDup (keys b) -> ple b (cm_join a b).
+Proof.
+  intros Nb k y Hk. rewrite cm_get_join by exact Nb. rewrite Hk. destruct (cm_get a k) as [x|]; eexists; (split; [reflexivity|]); [|left; reflexivity].
+  destruct (cst_eqb x y) eqn:E; [apply cst_eqb_eq in E; subst; left; reflexivity|right; reflexivity].
+Qed.
+Lemma ple_join_l a b : NoDup (keys b) -> ple a (cm_join a b).
+Proof.
+  intros Nb k x Hk. rewrite cm_get_join by exact Nb. rewrite Hk. destruct (cm_get b k) as [y|]; eexists; (split; [reflexivity|]); [|left; reflexivity].
+  destruct (cst_eqb x y); [left|right]; reflexivity.
+Qed.
+
+(* ---------- eval and the transfer function are monotone where every read scalar is a present key ---------- *)
+Lemma cm_scalar_mono s s' x c : ple s s' -> cm_scalar s x = Some c ->
+  cm_scalar s' x = Some c \/ cm_scalar s' x = None.
+Proof.
+  intros Hp H. apply cm_scalar_get in H. destruct (Hp x _ H) as (y & Hy & [<- | ->]).
+  - left. apply cm_scalar_get. exact Hy.
+  - right. unfold cm_scalar. rewrite Hy. reflexivity.
+Qed.
+Lemma cm_scalar_none_mono s s' x : ple s s' -> cm_get s x <> None -> cm_scalar s x = None -> cm_scalar s' x = None.
+Proof.
+  intros Hp Hpres H. destruct (cm_get s x) as [v|] eqn:E; [|contradiction].
+  destruct (Hp x v E) as (y & Hy & L). unfold cm_scalar in *. rewrite E in H. rewrite Hy.
+  destruct L as [<- | ->]; [|reflexivity]. destruct v; try reflexivity. discriminate.
+Qed.
+
+Lemma eval_fold_mono s s' : ple s s' -> forall ss e r, (forall x, In x ss -> cm_get s x <> None) ->
+  eval_fold s ss e = Ok r -> eval_fold s' ss e = Ok r \/ eval_fold s' ss e = Ok None.
+Proof.
+  intros Hp. induction ss as [|x t IH]; intros e r Hpres H; cbn [eval_fold] in *; [left; exact H|].
+  destruct (cm_scalar s x) as [c|] eqn:Es.
+  - destruct (replace_scalar e x (EConst c)) as [e'| |] eqn:Er; try discriminate.
+    destruct (cm_scalar_mono s s' x c Hp Es) as [E'|E']; rewrite E'; [|right; reflexivity].
+    rewrite Er. apply IH; [intros y Hy; apply Hpres; right; exact Hy|exact H].
+  - injection H as <-. rewrite (cm_scalar_none_mono s s' x Hp (Hpres x (or_introl eq_refl)) Es). left. reflexivity.
+Qed.
+
+Lemma cm_eval_mono s s' e r : ple s s' -> (forall x, In x (scalars e) -> cm_get s x <> None) ->
+  cm_eval s e = Ok r -> cm_eval s' e = Ok r \/ cm_eval s' e = Ok None.
+Proof.
+  intros Hp Hpres H. unfold cm_eval in *.
+  destruct (eval_fold s (scalars e) e) as [r0| |] eqn:Ef; try discriminate. cbn [bind] in H.
+  destruct (eval_fold_mono s s' Hp _ _ _ Hpres Ef) as [E|E]; rewrite E; cbn [bind]; [left; exact H|right; reflexivity].
+Qed.
+
+Lemma ple_set s s' k v v' : ple s s' -> vle v v' -> ple (cm_set s k v) (cm_set s' k v').
+Proof.
+  intros Hp Hv x y H. rewrite cm_get_set in *. destruct (scalar_eqb k x); [injection H as <-; eauto|exact (Hp x y H)].
+Qed.
+Lemma ple_top s s' : ple s s' -> ple (cm_top s) (cm_top s').
+Proof.
+  intros Hp x y H. rewrite cm_get_top in *. destruct (cm_get s x) as [v|] eqn:E; [|discriminate]. injection H as <-.
+  destruct (Hp x v E) as (y' & -> & _). exists CTop. split; [reflexivity|left; reflexivity].
+Qed.
+
+Lemma c_trans_mono f l s s' a : ple s s' -> (forall x, In x (loc_reads f l) -> cm_get s x <> None) ->
+  c_trans f l (Some s) = Ok a -> exists a', c_trans f l (Some s') = Ok a' /\ ple a a'.
+Proof.
+  intros Hp Hpres. cbv beta iota zeta delta [c_trans]. unfold loc_reads in Hpres.
+  destruct l as [bi ii|h t|bi]; try (intros [= <-]; eauto).
+  destruct (loc_instruction f (LInstr bi ii)) as [i|]; [|discriminate].
+  destruct (i_op i) as [dst src|idx src|dst idx|tgt|intr|ph]; cbn [op_scalars_read] in Hpres.
+  - destruct (cm_eval s src) as [r| |] eqn:Ee; try discriminate. cbn [bind]. intros [= <-].
+    destruct (cm_eval_mono s s' src r Hp Hpres Ee) as [E|E]; rewrite E; cbn [bind]; eexists; (split; [reflexivity|]);
+      apply ple_set; try exact Hp; [left; reflexivity|destruct r; [right; reflexivity|left; reflexivity]].
+  - intros [= <-]. eauto.
+  - intros [= <-]. eexists. split; [reflexivity|]. apply ple_set; [exact Hp|left; reflexivity].
+  - intros [= <-]. eexists. split; [reflexivity|]. apply ple_top. exact Hp.
+  - destruct (intr_scalars_written intr) as [ws|]; intros [= <-]; eexists; (split; [reflexivity|]); [|apply ple_top; exact Hp].
+    clear Hpres. revert s s' Hp. induction ws as [|w ws IH]; intros s s' Hp; cbn [fold_left]; [exact Hp|].
+    apply IH. apply ple_set; [exact Hp|left; reflexivity].
+  - intros [= <-]. eauto.
+Qed.
+
+(* ---------- the join over predecessor states is monotone in the map ---------- *)
+Definition mle (m m' : list (floc * cmap)) : Prop :=
+  forall l s, clk m l = Some s -> exists s', clk m' l = Some s' /\ ple s s'.
+Definition mnodup (m : list (floc * cmap)) : Prop := forall l s, clk m l = Some s -> NoDup (keys s).
+
+Lemma cjn_mono m m' ps : mle m m' -> mnodup m -> mnodup m' ->
+  forall acc acc', ople acc acc' ->
+  forall sto, fold_left (FixedPoint.join_step floc cmap floc_eqb c_join m) ps (Ok acc) = Ok sto ->
+  exists sto', fold_left (FixedPoint.join_step floc cmap floc_eqb c_join m') ps (Ok acc') = Ok sto' /\ ople sto sto'.
+Proof.
+  intros Hm N N'. induction ps as [|p ps IH]; intros acc acc' Ho sto H; cbn [fold_left] in *.
+  - injection H as <-. eauto.
+  - unfold FixedPoint.join_step at 2 in H. unfold FixedPoint.join_step at 2.
+    destruct (clk m p) as [x|] eqn:Ex.
+    + destruct (Hm p x Ex) as (x' & Ex' & Hx). rewrite Ex'.
+      destruct acc as [a|], acc' as [a'|]; cbn [c_join ople] in *; try contradiction.
+      * apply (IH (Some (cm_join a x)) (Some (cm_join a' x')) (ple_join a a' x x' (N p x Ex) (N' p x' Ex') Ho Hx) sto H).
+      * apply (IH (Some x) (Some (cm_join a' x')) (ple_trans _ _ _ Hx (ple_join_r a' x' (N' p x' Ex'))) sto H).
+      * apply (IH (Some x) (Some x') Hx sto H).
+    + destruct (clk m' p) as [x'|] eqn:Ex'; [|apply (IH acc acc' Ho sto H)].
+      destruct acc as [a|], acc' as [a'|]; cbn [c_join ople] in *; try contradiction.
+      * apply (IH (Some a) (Some (cm_join a' x')) (ple_trans _ _ _ Ho (ple_join_l a' x' (N' p x' Ex'))) sto H).
+      * apply (IH None (Some (cm_join a' x')) I sto H).
+      * apply (IH None (Some x') I sto H).
+Qed.
+
+(* ---------- partial_cmp = Equal between pointwise-ordered maps is equality ---------- *)
+Lemma eq_fold_inv s l : forall acc, fold_left (eq_step s) l acc = Some Eq ->
+  acc = Some Eq /\ forall kv, In kv l -> exists rc, cm_get s (fst kv) = Some rc /\ cst_lt (snd kv) rc = false /\ cst_gt (snd kv) rc = false.
+Proof.
+  induction l as [|kv t IH]; intros acc H; cbn [fold_left] in H; [split; [exact H|intros ? []]|].
+  destruct (IH _ H) as [Hacc Ht]. unfold eq_step in Hacc.
+  destruct acc as [order|]; [|discriminate].
+  destruct (cm_get s (fst kv)) as [rc|] eqn:Eg; [|discriminate].
+  destruct (cst_lt (snd kv) rc) eqn:E1; [destruct order; discriminate|].
+  destruct (cst_gt (snd kv) rc) eqn:E2; [destruct order; discriminate|].
+  split; [exact Hacc|]. intros kv' [<-|Hin]; [eauto|auto].
+Qed.
+
+Lemma cmp_eq_exact n s : NoDup (keys n) -> NoDup (keys s) -> ple s n -> cm_cmp n s = Some Eq -> cmap_eqb n s = true.
+Proof.
+  intros Nn Ns Hp Hc. unfold cm_cmp in Hc.
+  destruct (Nat.compare (length n) (length s)) eqn:El.
+  2:{ destruct (sub_le n s); discriminate. }
+  2:{ destruct (sub_le s n); discriminate. }
+  apply Nat.compare_eq in El. destruct (eq_fold_inv s n _ Hc) as [_ Hall].
+  assert (Hget : forall k, cm_get n k = cm_get s k).
+  { intros k. destruct (cm_get n k) as [v|] eqn:En.
+    - destruct (Hall (k, v) (cm_get_in _ _ _ En)) as (rc & Hrc & L1 & L2). cbn [fst snd] in *.
+      rewrite Hrc. f_equal. destruct (Hp k rc Hrc) as (y & Hy & L). rewrite En in Hy. injection Hy as <-.
+      destruct L as [-> | ->]; [reflexivity|].
+      destruct rc as [|c|]; [reflexivity|cbn in L2; discriminate|cbn in L2; discriminate].
+    - destruct (cm_get s k) as [x|] eqn:Es; [|reflexivity]. destruct (Hp k x Es) as (y & Hy & _). congruence. }
+  unfold cmap_eqb. rewrite El, Nat.eqb_refl. cbn [andb]. apply andb_true_intro. split; unfold cmap_sub; apply forallb_forall; intros [k v] Hin; cbn [fst snd].
+  - rewrite <- Hget, (cm_in_get n k v Nn Hin). apply cst_eqb_eq. reflexivity.
+  - rewrite Hget, (cm_in_get s k v Ns Hin). apply cst_eqb_eq. reflexivity.
+Qed.
+
+(* the transfer function keeps the keys of its input and adds the scalars the location writes *)
+Lemma c_trans_keys f l s a : c_trans f l (Some s) = Ok a ->
+  (forall x, cm_get s x <> None -> cm_get a x <> None) /\ (forall x, In x (loc_writes f l) -> cm_get a x <> None).
+Proof.
+  cbv beta iota zeta delta [c_trans]. unfold loc_writes.
+  destruct l as [bi ii|h t|bi]; try (intros [= <-]; split; [auto|cbn [loc_instruction]; intros x []]).
+  destruct (loc_instruction f (LInstr bi ii)) as [i|]; [|discriminate].
+  destruct (i_op i) as [dst src|idx src|dst idx|tgt|intr|ph].
+  - destruct (cm_eval s src) as [r| |]; try discriminate. cbn [bind]. intros [= <-]. split.
+    + intros x Hx. rewrite cm_get_set. destruct (scalar_eqb dst x); [discriminate|exact Hx].
+    + intros x [<-|[]]. rewrite cm_get_set, scalar_eqb_refl. discriminate.
+  - intros [= <-]. split; [auto|intros x []].
+  - intros [= <-]. split.
+    + intros x Hx. rewrite cm_get_set. destruct (scalar_eqb dst x); [discriminate|exact Hx].
+    + intros x [<-|[]]. rewrite cm_get_set, scalar_eqb_refl. discriminate.
+  - intros [= <-]. split; [|intros x []]. intros x Hx. rewrite cm_get_top. destruct (cm_get s x); [discriminate|contradiction].
+  - destruct (intr_scalars_written intr) as [ws|]; intros [= <-]; (split; [|intros x []]).
+    + revert s. induction ws as [|w ws IH]; intros s x Hx; cbn [fold_left]; [exact Hx|]. apply IH.
+      rewrite cm_get_set. destruct (scalar_eqb w x); [discriminate|exact Hx].
+    + intros x Hx. rewrite cm_get_top. destruct (cm_get s x); [discriminate|contradiction].
+  - intros [= <-]. split; [auto|intros x []].
+Qed.
+
+Lemma above_present O A x : above O A -> cm_get O x <> None -> cm_get A x <> None.
+Proof. intros Hab H. destruct (cm_get O x) as [v|] eqn:E; [|contradiction]. destruct (Hab x v E) as [H1|H1]; rewrite H1; discriminate. Qed.
+
+(* ---------- the run invariant ---------- *)
+Section Exact.
+  Variable f : func.
+  Hypothesis Hinv : cfg_inv (f_cfg f) = true.
+  Hypothesis Hsrcs : srcs_wf f = true.
+  Hypothesis Hda : def_assigned f = true.
+  Variables (e : Z) (eb : block).
+  Hypothesis He : g_entry (f_cfg f) = Some e.
+  Hypothesis Hb : find_block (f_blocks f) e = Some eb.
+  Let entry := block_first_loc eb.
+  Variable dm : da_map.
+  Hypothesis Hsol : da_solution f = Some dm.
+
+  Let Hebin : In eb (f_blocks f) := proj1 (find_block_some _ _ _ Hb).
+  Let Hent : entry_loc f = Some entry. Proof. unfold entry_loc. rewrite He, Hb. reflexivity. Qed.
+  Let Hfrom := il_from_ok f Hinv eb Hebin.
+  Let Hto := il_to_ok f Hinv eb Hebin.
+  Let Hconv := il_converse f Hinv eb Hebin.
+
+  Notation In_domC := (In_dom floc cmap floc_eqb).
+  Notation RchC := (Rch floc cmap floc_eqb (il_succ f) entry).
+  Notation FedC := (Fed floc cmap floc_eqb (il_pred f) entry).
+  Notation bstepC := (bstep floc cmap floc_eqb (backward f) (forward f) (c_trans f) c_join cm_cmp false).
+  Definition Req (new s : cmap) : Prop := cm_cmp new s = Some Eq \/ new = s.
+  Notation InvC := (Inv floc cmap floc_eqb (c_trans f) c_join (il_succ f) (il_pred f) entry Req).
+
+  Definition Kinv (m : list (floc * cmap)) : Prop :=
+    forall l s, clk m l = Some s -> forall x, In x (da_get dm l) \/ In x (loc_writes f l) -> cm_get s x <> None.
+  Definition DomFed (m : list (floc * cmap)) : Prop :=
+    forall l, In_domC m l -> l = entry \/ exists p, In p (il_pred f l) /\ In_domC m p.
+  Definition Asc (m : list (floc * cmap)) : Prop :=
+    forall l s, clk m l = Some s -> exists sto new, cjn m (il_pred f l) = Ok sto /\ c_trans f l sto = Ok new /\ ple s new.
+  Definition GoodC (m : list (floc * cmap)) : Prop := forall l s, clk m l = Some s -> good f s.
+
+  Definition XI (m : list (floc * cmap)) (q : list floc) : Prop :=
+    RchC m q /\ FedC m q /\ InvC m q /\ GoodC m /\ DomFed m /\ Kinv m /\ Asc m /\ NoDup (List.map fst m).
+
+  Definition sof (sto : option cmap) : cmap := match sto with Some s => s | None => [] end.
+
+  Lemma reach_in_loc l : reachL f entry l -> In l (locations f).
+  Proof. intros H. apply (locations_valid f l Hinv). exact (reach_valid f Hinv eb Hebin l H). Qed.
+
+  Lemma cjn_goodC m ps sto : GoodC m -> cjn m ps = Ok sto -> good f (sof sto).
+  Proof.
+    intros HG H. destruct sto as [s|]; [|apply good_nil]. cbn [sof].
+    apply (join_neighbours_good floc cmap floc_eqb c_join (good f)
+             (fun a b j Ha Hb0 Hj => ltac:(injection Hj as <-; apply good_join; assumption)) m ps (Some s) HG H s eq_refl).
+  Qed.
+
+  (* every scalar definitely assigned before l is a key of the in-state at l *)
+  Lemma presence m l sto : GoodC m -> Kinv m -> reachL f entry l ->
+    (l = entry \/ exists p, In p (il_pred f l) /\ In_domC m p) ->
+    cjn m (il_pred f l) = Ok sto -> forall x, In x (da_get dm l) -> cm_get (sof sto) x <> None.
+  Proof.
+    intros HG HK Hr Hfed Hj x Hx. destruct (da_facts f entry dm Hent Hsol Hda) as (F1 & F2 & _).
+    destruct (floc_eqb l entry) eqn:E.
+    - apply floc_eqb_eq in E. subst l. rewrite F1 in Hx. destruct Hx.
+    - assert (Hne : l <> entry) by (intros ->; assert (floc_eqb entry entry = true) by (apply floc_eqb_eq; reflexivity); congruence).
+      destruct Hfed as [->|(p & Hp & Hd)]; [contradiction|].
+      destruct (clk m p) as [O|] eqn:EO; [|exfalso; apply Hd; exact EO].
+      destruct (cjn_above m (il_pred f l) p O Hp EO (proj1 (HG p O EO))) as (J & HJ & Hab).
+      rewrite HJ in Hj. injection Hj as <-. cbn [sof]. apply (above_present O J x Hab).
+      apply (HK p O EO). destruct (F2 l (reach_in_loc l Hr) Hne p Hp x Hx); auto.
+  Qed.
+
+  Lemma c_trans_sof l sto : c_trans f l sto = c_trans f l (Some (sof sto)).
+  Proof. destruct sto; reflexivity. Qed.
+
+  (* re-evaluating the equation at x after the map has grown gives a larger result *)
+  Lemma eqn_mono m m2 x sto nx : GoodC m -> GoodC m2 -> Kinv m -> mle m m2 -> reachL f entry x ->
+    (x = entry \/ exists p, In p (il_pred f x) /\ In_domC m p) ->
+    cjn m (il_pred f x) = Ok sto -> c_trans f x sto = Ok nx ->
+    exists sto2 nx2, cjn m2 (il_pred f x) = Ok sto2 /\ c_trans f x sto2 = Ok nx2 /\ ple nx nx2.
+  Proof.
+    intros HG HG2 HK Hm Hr Hfed Hj Ht.
+    destruct (cjn_mono m m2 (il_pred f x) Hm (fun l s H => proj1 (HG l s H)) (fun l s H => proj1 (HG2 l s H)) None None I sto Hj)
+      as (sto2 & Hj2 & Ho).
+    assert (Hp : ple (sof sto) (sof sto2)).
+    { destruct sto as [a|], sto2 as [b|]; cbn [sof ople] in *; [exact Ho|contradiction|apply ple_nil|apply ple_refl]. }
+    rewrite c_trans_sof in Ht.
+    destruct (c_trans_mono f x (sof sto) (sof sto2) nx Hp) as (nx2 & Ht2 & Hle); [|exact Ht|].
+    - intros y Hy. apply (presence m x sto HG HK Hr Hfed Hj).
+      destruct (da_facts f entry dm Hent Hsol Hda) as (_ & _ & F3). exact (F3 x (reach_in_loc x Hr) y Hy).
+    - exists sto2, nx2. rewrite (c_trans_sof x sto2). auto.
+  Qed.
+End Exact.
+
+Section Exact2.
+  Variable f : func.
+  Hypothesis Hinv : cfg_inv (f_cfg f) = true.
+  Hypothesis Hsrcs : srcs_wf f = true.
+  Hypothesis Hda : def_assigned f = true.
+  Variables (e : Z) (eb : block).
+  Hypothesis He : g_entry (f_cfg f) = Some e.
+  Hypothesis Hb : find_block (f_blocks f) e = Some eb.
+  Let entry := block_first_loc eb.
+  Variable dm : da_map.
+  Hypothesis Hsol : da_solution f = Some dm.
+
+  Let Hebin : In eb (f_blocks f) := proj1 (find_block_some _ _ _ Hb).
+  Let Hfrom := il_from_ok f Hinv eb Hebin.
+  Let Hto := il_to_ok f Hinv eb Hebin.
+  Let Hconv := il_converse f Hinv eb Hebin.
+
+  Notation lis := (lookup_insert_same floc cmap floc_eqb floc_eqb_reflect).
+  Notation lio := (lookup_insert_other floc cmap floc_eqb floc_eqb_reflect).
+
+  Lemma XI_step m l q' m2 q2 : XI f eb dm m (l :: q') ->
+    bstep floc cmap floc_eqb (backward f) (forward f) (c_trans f) c_join cm_cmp false m l q' = Next floc cmap m2 q2 ->
+    XI f eb dm m2 q2.
+  Proof.
+    intros (HR & HF & HI & HG & HD & HK & HA & HN) Hbs.
+    pose proof (Rch_step floc cmap floc_eqb floc_eqb_reflect (backward f) (forward f) (c_trans f) c_join cm_cmp (il_succ f) entry Hto false m l q' m2 q2 HR Hbs) as HR2.
+    pose proof (Fed_step floc cmap floc_eqb floc_eqb_reflect (backward f) (forward f) (c_trans f) c_join cm_cmp (il_succ f) (il_pred f) entry Hto Hconv false m l q' m2 q2 HR HF Hbs) as HF2.
+    assert (HI2 : Inv floc cmap floc_eqb (c_trans f) c_join (il_succ f) (il_pred f) entry Req m2 q2).
+    { apply (Inv_step floc cmap floc_eqb floc_eqb_reflect (backward f) (forward f) (c_trans f) c_join cm_cmp
+               (il_succ f) (il_pred f) entry Hfrom Hto Hconv Req false) with (m := m) (l := l) (q' := q'); try assumption.
+      - intros a b H. left. exact H.
+      - intros s. right. reflexivity.
+      - discriminate. }
+    assert (Rl : reachL f entry l) by (apply HR; right; left; reflexivity).
+    destruct (bstep_next _ _ _ _ _ _ _ _ _ _ _ _ _ _ Hbs) as (ps & st & new & H1 & H2 & H3 & [(old & Hl & Hc & -> & ->)|(s & ss & Hp & -> & -> & Hs)]).
+    { exact (conj HR2 (conj HF2 (conj HI2 (conj HG (conj HD (conj HK (conj HA HN))))))). }
+    rewrite (Hfrom l Rl) in H1. injection H1 as <-.
+    assert (Es : s = new).
+    { destruct Hs as [[_ ->]|(old & _ & _ & [(_ & _ & ->)|(Hf & _)])]; [reflexivity|reflexivity|discriminate Hf]. }
+    subst s.
+    assert (Hfedl : l = entry \/ exists p, In p (il_pred f l) /\ In_dom floc cmap floc_eqb m p) by (apply HF; left; reflexivity).
+    assert (Gin : good f (sof st)) by (eapply cjn_goodC; eassumption).
+    assert (Gnew : good f new).
+    { apply (good_trans f Hsrcs l (Some (sof st)) new (reach_in_loc f Hinv e eb Hb l Rl)); [intros s0 [= <-]; exact Gin|].
+      rewrite <- c_trans_sof. exact H3. }
+    assert (HG2 : GoodC f (FixedPoint.insert floc cmap floc_eqb m l new)).
+    { intros x sx Hx. destruct (floc_eqb_reflect x l) as [->|N].
+      - rewrite lis in Hx. injection Hx as <-. exact Gnew.
+      - rewrite lio in Hx by exact N. exact (HG x sx Hx). }
+    assert (Hmle : mle m (FixedPoint.insert floc cmap floc_eqb m l new)).
+    { intros x sx Hx. destruct (floc_eqb_reflect x l) as [->|N].
+      - rewrite lis. exists new. split; [reflexivity|].
+        destruct (HA l sx Hx) as (sto0 & new0 & J0 & T0 & P0). rewrite H2 in J0. injection J0 as <-. rewrite H3 in T0. injection T0 as <-. exact P0.
+      - rewrite lio by exact N. exists sx. split; [exact Hx|apply ple_refl]. }
+    assert (Hdom2 : forall x, In_dom floc cmap floc_eqb m x -> In_dom floc cmap floc_eqb (FixedPoint.insert floc cmap floc_eqb m l new) x).
+    { intros x Hx. apply (In_dom_insert floc cmap floc_eqb floc_eqb_reflect (c_trans f) c_join cm_cmp entry). right. exact Hx. }
+    refine (conj HR2 (conj HF2 (conj HI2 (conj HG2 (conj _ (conj _ (conj _ _))))))).
+    - (* DomFed *)
+      intros x Hx. apply (In_dom_insert floc cmap floc_eqb floc_eqb_reflect (c_trans f) c_join cm_cmp entry) in Hx.
+      assert (Hfx : x = entry \/ exists p, In p (il_pred f x) /\ In_dom floc cmap floc_eqb m p) by (destruct Hx as [->|Hx]; [exact Hfedl|exact (HD x Hx)]).
+      destruct Hfx as [->|(p & Hp1 & Hp2)]; [left; reflexivity|right; exists p; split; [exact Hp1|exact (Hdom2 p Hp2)]].
+    - (* Kinv *)
+      intros x sx Hx y Hy. destruct (floc_eqb_reflect x l) as [->|N]; [|rewrite lio in Hx by exact N; exact (HK x sx Hx y Hy)].
+      rewrite lis in Hx. injection Hx as <-. rewrite c_trans_sof in H3. destruct (c_trans_keys f l (sof st) new H3) as [K1 K2].
+      destruct Hy as [Hy|Hy]; [|exact (K2 y Hy)]. apply K1.
+      exact (presence f Hinv Hda e eb He Hb dm Hsol m l st HG HK Rl Hfedl H2 y Hy).
+    - (* Asc *)
+      intros x sx Hx. destruct (floc_eqb_reflect x l) as [->|N].
+      + rewrite lis in Hx. injection Hx as <-.
+        destruct (eqn_mono f Hinv Hda e eb He Hb dm Hsol m _ l st new HG HG2 HK Hmle Rl Hfedl H2 H3) as (sto2 & nx2 & A & B & C).
+        exists sto2, nx2. auto.
+      + rewrite lio in Hx by exact N.
+        destruct (HA x sx Hx) as (sto0 & nx & J0 & T0 & P0).
+        assert (Rx : reachL f entry x) by (apply HR; left; unfold In_dom; congruence).
+        assert (Hfx : x = entry \/ exists p, In p (il_pred f x) /\ In_dom floc cmap floc_eqb m p) by (apply HD; unfold In_dom; congruence).
+        destruct (eqn_mono f Hinv Hda e eb He Hb dm Hsol m _ x sto0 nx HG HG2 HK Hmle Rx Hfx J0 T0) as (sto2 & nx2 & A & B & C).
+        exists sto2, nx2. split; [exact A|split; [exact B|eapply ple_trans; eassumption]].
+    - apply fp_insert_nodup. exact HN.
+  Qed.
+End Exact2.
+
+Lemma cmap_eqb_refl s : NoDup (keys s) -> cmap_eqb s s = true.
+Proof.
+  intros Hn. unfold cmap_eqb. rewrite Nat.eqb_refl. cbn [andb].
+  assert (H : cmap_sub s s = true).
+  { unfold cmap_sub. apply forallb_forall. intros [k v] Hin. cbn [fst snd]. rewrite (cm_in_get s k v Hn Hin). apply cst_eqb_eq. reflexivity. }
+  rewrite H. reflexivity.
+Qed.
+
+(* C13: on def_assigned functions the engine's result is an EXACT solution (discharges the hypothesis of
+   constants_sound_partial) *)
+Theorem constants_exact f max m :
+  cfg_inv (f_cfg f) = true -> srcs_wf f = true -> def_assigned f = true ->
+  constants_states max f = Ok m -> exact_solution f m = true.
+Proof.
+  intros Hinv Hsrc Hda H. unfold constants_states, fp_forward in H.
+  destruct (g_entry (f_cfg f)) as [e|] eqn:Ee; [|discriminate].
+  unfold f_block, cfg_block in H. fold (f_blocks f) in H.
+  destruct (find_block (f_blocks f) e) as [eb|] eqn:Eb; [|discriminate]. cbn [bind] in H.
+  match type of H with of_outcome _ ?R = _ => destruct R as [m'| | |] eqn:Er; try discriminate end.
+  cbn [of_outcome] in H. injection H as ->.
+  destruct (da_solution f) as [dm|] eqn:Hsol.
+  2:{ unfold def_assigned in Hda. unfold entry_loc in Hda. rewrite Ee, Eb, Hsol in Hda. discriminate. }
+  pose proof (proj1 (find_block_some _ _ _ Eb)) as Hin.
+  pose proof (il_from_ok f Hinv eb Hin) as Hfrom.
+  destruct (run_done_term _ _ _ _ _ _ _ _ _ _ _ _ _ _ _ Er) as (n & Hterm).
+  assert (HX : XI f eb dm m []).
+  { refine (term_inv floc cmap floc_eqb (backward f) (forward f) (c_trans f) c_join cm_cmp (XI f eb dm) false _ _ _ _ _ Hterm _).
+    - intros m0 l q' m2 q2 H0 Hbs. exact (XI_step f Hinv Hsrc Hda e eb Ee Eb dm Hsol m0 l q' m2 q2 H0 Hbs).
+    - refine (conj (Rch_init _ _ _ _ _) (conj (Fed_init _ _ _ _ _) (conj (Inv_init _ _ _ _ _ _ _ _ _) (conj _ (conj _ (conj _ (conj _ _))))))).
+      + intros l s Hl. discriminate Hl.
+      + intros l Hl. exfalso. apply Hl. reflexivity.
+      + intros l s Hl. discriminate Hl.
+      + intros l s Hl. discriminate Hl.
+      + constructor. }
+  destruct HX as (HR & _ & HI & HG & HD & HK & HA & HN).
+  destruct (Inv_final _ _ _ _ _ _ _ _ _ m HI) as [Hdom Hholds].
+  unfold exact_solution. apply forallb_forall. intros [l s] Hls. cbn [fst snd].
+  pose proof (fp_in_lookup m l s HN Hls) as Hl.
+  assert (Hd : In_dom floc cmap floc_eqb m l) by (unfold In_dom; congruence).
+  destruct (Hholds l Hd) as (st & new & s' & J & T & L & Rq). rewrite Hl in L. injection L as <-.
+  destruct (HA l s Hl) as (st0 & new0 & J0 & T0 & P0). rewrite J in J0. injection J0 as <-. rewrite T in T0. injection T0 as <-.
+  assert (Rl : reachL f (block_first_loc eb) l) by (apply Hdom; exact Hd).
+  unfold exact_at. rewrite (Hfrom l Rl), J, T.
+  assert (Gnew : good f new).
+  { apply (good_trans f Hsrc l (Some (sof st)) new (reach_in_loc f Hinv e eb Eb l Rl)).
+    - intros s0 [= <-]. eapply cjn_goodC; eassumption.
+    - rewrite <- c_trans_sof. exact T. }
+  destruct Rq as [Hc| ->]; [|apply cmap_eqb_refl; exact (proj1 Gnew)].
+  apply cmp_eq_exact; [exact (proj1 Gnew)|exact (proj1 (HG l s Hl))|exact P0|exact Hc].
+Qed.
+
+(* C13 soundness at full strength on the def_assigned class *)
+Theorem constants_sound f max r :
+  cfg_inv (f_cfg f) = true -> c13_wf f = true -> def_assigned f = true ->
+  constants_max max f = Ok r ->
+  forall l0 st0 fuel ti asg cm,
+    entry_loc f = Some l0 ->
+    In (ti, asg) (with_assigned [] (sem_run fuel f l0 st0)) ->
+    lm_get r (ti_loc ti) = Some cm ->
+    (forall s c, cm_get cm s = Some (CConst c) -> key_mem (skey_of s) asg = true ->
+                 env_get (st_env (ti_before ti)) (skey_of s) = Some c) /\
+    (forall e v, wfb e = true -> cm_eval cm e = Ok (Some v) ->
+                 (forall x, In x (scalars e) -> key_mem (skey_of x) asg = true) ->
+                 den (st_env (ti_before ti)) e = Ok v).
+Proof.
+  intros Hinv Hwf Hda Hr. unfold constants_max in Hr.
+  destruct (constants_states max f) as [m| |] eqn:Hst; try discriminate. cbn [bind] in Hr.
+  apply (constants_sound_partial f max m r Hinv Hwf Hda Hst); [|exact Hr].
+  apply (constants_exact f max m Hinv (Hsrc f Hwf) Hda Hst).
+Qed.
+
+(* ================================================================== completion up to the step budget *)
+Lemma cst_le_vle v y : vle v y -> cst_le v y = true.
+Proof.
+  intros [<- | ->]; unfold cst_le.
+  - destruct v as [|c|]; cbn [cst_cmp]; try reflexivity. rewrite const_eqb_refl. reflexivity.
+  - destruct v; reflexivity.
+Qed.
+
+Lemma keys_incl_of_ple a b : ple a b -> incl (keys a) (keys b).
+Proof.
+  intros Hp k Hk. unfold keys in Hk. apply in_map_iff in Hk as ([k' v] & <- & Hin). cbn [fst].
+  destruct (cm_get a k') as [x|] eqn:E.
+  - destruct (Hp k' x E) as (y & Hy & _). eapply get_in_keys. exact Hy.
+  - apply cm_get_none in E. exfalso. apply E. apply in_map_iff. exists (k', v). auto.
+Qed.
+
+Lemma ple_cmp old new : NoDup (keys old) -> NoDup (keys new) -> ple old new ->
+  cm_cmp new old = Some Gt \/ cm_cmp new old = Some Eq.
+Proof.
+  intros No Nn Hp. pose proof (keys_incl_of_ple old new Hp) as Hincl.
+  pose proof (NoDup_incl_length No Hincl) as Hlen. unfold keys in Hlen. rewrite !map_length in Hlen.
+  unfold cm_cmp. destruct (Nat.compare (length new) (length old)) eqn:Ec.
+  - (* equal lengths *)
+    apply Nat.compare_eq in Ec.
+    assert (Hincl' : incl (keys new) (keys old)).
+    { apply NoDup_length_incl; [exact No| |exact Hincl]. unfold keys. rewrite !map_length. lia. }
+    assert (G : forall l, incl l new -> forall acc, acc = Some Eq \/ acc = Some Gt ->
+                fold_left (eq_step old) l acc = Some Eq \/ fold_left (eq_step old) l acc = Some Gt).
+    { induction l as [|[k v] t IH]; intros Hl acc Hacc; cbn [fold_left]; [exact Hacc|].
+      apply IH; [intros x Hx; apply Hl; right; exact Hx|].
+      assert (Hin : In (k, v) new) by (apply Hl; left; reflexivity).
+      pose proof (cm_in_get new k v Nn Hin) as Hg.
+      assert (Hk : In k (keys old)) by (apply Hincl'; eapply get_in_keys; exact Hg).
+      destruct (cm_get old k) as [rc|] eqn:Eo; [|apply cm_get_none in Eo; contradiction].
+      destruct (Hp k rc Eo) as (y & Hy & L). rewrite Hg in Hy. injection Hy as <-.
+      unfold eq_step. cbn [fst snd]. rewrite Eo.
+      destruct L as [<- | ->].
+      - assert (E1 : cst_lt rc rc = false) by (unfold cst_lt; destruct rc as [|c|]; cbn [cst_cmp]; try reflexivity; rewrite const_eqb_refl; reflexivity).
+        assert (E2 : cst_gt rc rc = false) by (unfold cst_gt; destruct rc as [|c|]; cbn [cst_cmp]; try reflexivity; rewrite const_eqb_refl; reflexivity).
+        destruct Hacc as [-> | ->]; rewrite E1, E2; auto.
+      - destruct rc as [|c|]; destruct Hacc as [-> | ->]; cbn; auto. }
+    destruct (G new (incl_refl _) (Some Eq) (or_introl eq_refl)); auto.
+  - apply Nat.compare_lt_iff in Ec. lia.
+  - assert (Hs : sub_le old new = true).
+    { unfold sub_le. apply forallb_forall. intros [k v] Hin. cbn [fst snd].
+      pose proof (cm_in_get old k v No Hin) as Hg. destruct (Hp k v Hg) as (y & -> & L). apply cst_le_vle. exact L. }
+    rewrite Hs. left. reflexivity.
+Qed.
+
+Lemma eden_np en e : eden en e <> Panic.
+Proof.
+  induction e as [s|c|o l IHl r IHr|o bits x IHx|g IHg t IHt f0 IHf]; cbn [eden].
+  - destruct (en s); discriminate.
+  - discriminate.
+  - destruct (eden en l) as [a| |]; try discriminate; [|contradiction]. destruct (eden en r) as [b| |]; try discriminate; [|contradiction].
+    cbn [bind]. destruct o; cbn [sp_bin]; try discriminate; destruct (cval b =? 0); discriminate.
+  - destruct (eden en x) as [a| |]; try discriminate; [|contradiction]. cbn [bind].
+    destruct o; cbn [sp_ext]; match goal with |- (if ?b then _ else _) <> _ => destruct b end; discriminate.
+  - destruct (eden en g) as [cv| |]; try discriminate; [|contradiction]. cbn [bind]. destruct (cval cv =? 1); assumption.
+Qed.
+
+Lemma eval_fold_no_err A : forall ss e err, eval_fold A ss e <> Err err.
+Proof.
+  induction ss as [|s t IH]; intros e err; cbn [eval_fold]; [discriminate|].
+  destruct (cm_scalar A s); [|discriminate]. destruct (replace_scalar e s (EConst c)); [apply IH|discriminate|discriminate].
+Qed.
+
+Lemma cm_eval_total A e : wf e -> cgood A -> exists r, cm_eval A e = Ok r.
+Proof.
+  intros W HA. unfold cm_eval. destruct (eval_fold A (scalars e) e) as [[e'|]|err|] eqn:Ef; cbn [bind].
+  - destruct (eval_fold_wf A HA _ _ _ W Ef) as [W' _]. pose proof (eden_np (fun _ => None) e') as Hnp.
+    rewrite <- eval_eden in Hnp by exact W'. destruct (eval e'); [eauto|eauto|contradiction].
+  - eauto.
+  - exfalso. exact (eval_fold_no_err A _ _ _ Ef).
+  - exfalso. exact (eval_fold_np A HA _ _ W Ef).
+Qed.
+
+Lemma cjn_total m ps : exists st, cjn m ps = Ok st.
+Proof.
+  unfold FixedPoint.join_neighbours. generalize (@None cmap) as acc.
+  induction ps as [|p ps IH]; intros acc; cbn [fold_left]; [eauto|].
+  unfold FixedPoint.join_step at 2. destruct (clk m p) as [x|]; [|apply IH].
+  destruct acc as [a|]; cbn [c_join]; apply IH.
+Qed.
+
+Section Complete13.
+  Variable f : func.
+  Hypothesis Hinv : cfg_inv (f_cfg f) = true.
+  Hypothesis Hsrcs : srcs_wf f = true.
+  Hypothesis Hda : def_assigned f = true.
+  Variables (e : Z) (eb : block).
+  Hypothesis He : g_entry (f_cfg f) = Some e.
+  Hypothesis Hb : find_block (f_blocks f) e = Some eb.
+  Let entry := block_first_loc eb.
+  Variable dm : da_map.
+  Hypothesis Hsol : da_solution f = Some dm.
+  Let Hebin : In eb (f_blocks f) := proj1 (find_block_some _ _ _ Hb).
+
+  Lemma c_trans_total l s : reachL f entry l -> good f s -> exists a, c_trans f l (Some s) = Ok a.
+  Proof.
+    intros Hr Hg. pose proof (reach_valid f Hinv eb Hebin l Hr) as Hv.
+    cbv beta iota zeta delta [c_trans]. destruct l as [bi ii|h t|bi]; try (eexists; reflexivity).
+    destruct (loc_instruction f (LInstr bi ii)) as [i|] eqn:Hi.
+    2:{ exfalso. cbn [valid_loc loc_instruction] in *. destruct (find_block (f_blocks f) bi); [|discriminate].
+        destruct (block_instruction b ii); discriminate. }
+    destruct (i_op i) as [dst src|idx src|dst idx|tgt|intr|ph] eqn:Ho; try (eexists; reflexivity).
+    - destruct (srcs_wf_at f Hsrcs _ _ _ _ Hi Ho) as [W _].
+      destruct (cm_eval_total s src W (proj2 (proj2 Hg))) as (r & ->). cbn [bind]. eexists; reflexivity.
+    - destruct (intr_scalars_written intr); eexists; reflexivity.
+  Qed.
+
+  (* an iteration of the loop never stops with an error on a state satisfying the invariant *)
+  Lemma bstep_total m l q' : XI f eb dm m (l :: q') ->
+    exists m2 q2, bstep floc cmap floc_eqb (backward f) (forward f) (c_trans f) c_join cm_cmp false m l q' = Next floc cmap m2 q2.
+  Proof.
+    intros (HR & HF & HI & HG & HD & HK & HA & HN).
+    assert (Rl : reachL f entry l) by (apply HR; right; left; reflexivity).
+    unfold bstep. rewrite (il_from_ok f Hinv eb Hebin l Rl).
+    destruct (cjn_total m (il_pred f l)) as (st & Hj). rewrite Hj.
+    assert (Gin : good f (sof st)) by (eapply cjn_goodC; eassumption).
+    destruct (c_trans_total l (sof st) Rl Gin) as (new & Ht). rewrite <- c_trans_sof in Ht. rewrite Ht.
+    rewrite (il_to_ok f Hinv eb Hebin l Rl).
+    destruct (clk m l) as [old|] eqn:Hl; [|eauto].
+    destruct (HA l old Hl) as (st0 & new0 & J0 & T0 & P0). rewrite Hj in J0. injection J0 as <-. rewrite Ht in T0. injection T0 as <-.
+    assert (Gnew : good f new).
+    { apply (good_trans f Hsrcs l (Some (sof st)) new (reach_in_loc f Hinv e eb Hb l Rl)); [intros s0 [= <-]; exact Gin|].
+      rewrite <- c_trans_sof. exact Ht. }
+    destruct (ple_cmp old new (proj1 (HG l old Hl)) (proj1 Gnew) P0) as [-> | ->]; eauto.
+  Qed.
+
+  Lemma term_done_only n o : forall m q, term floc cmap floc_eqb (backward f) (forward f) (c_trans f) c_join cm_cmp false m q n o ->
+    XI f eb dm m q -> exists m', o = Done m'.
+  Proof.
+    intros m q Ht. induction Ht as [m|m l q' o Hbs|m l q' m2 q2 n o Hbs Ht IH]; intros HX.
+    - eauto.
+    - destruct (bstep_total m l q' HX) as (m2 & q2 & E). rewrite E in Hbs. discriminate.
+    - apply IH. exact (XI_step f Hinv Hsrcs Hda e eb He Hb dm Hsol m l q' m2 q2 HX Hbs).
+  Qed.
+End Complete13.
+
+(* C13 completion up to the step budget: on a def_assigned function the analysis returns a result or
+   stops on the engine's step budget -- never FixedPointOrdering, never a panic, never another error *)
+Theorem constants_completes_partial f max :
+  cfg_inv (f_cfg f) = true -> c13_wf f = true -> def_assigned f = true ->
+  (exists r, constants_max max f = Ok r) \/ constants_max max f = Err EMaxSteps.
+Proof.
+  intros Hinv Hwf Hda. pose proof (Hsrc f Hwf) as Hsr.
+  destruct (g_entry (f_cfg f)) as [e|] eqn:Ee.
+  2:{ unfold def_assigned, entry_loc in Hda. rewrite Ee in Hda. discriminate. }
+  destruct (find_block (f_blocks f) e) as [eb|] eqn:Eb.
+  2:{ unfold def_assigned, entry_loc in Hda. rewrite Ee, Eb in Hda. discriminate. }
+  destruct (da_solution f) as [dm|] eqn:Hsol.
+  2:{ unfold def_assigned, entry_loc in Hda. rewrite Ee, Eb, Hsol in Hda. discriminate. }
+  assert (HX0 : XI f eb dm [] [block_first_loc eb]).
+  { refine (conj (Rch_init _ _ _ _ _) (conj (Fed_init _ _ _ _ _) (conj (Inv_init _ _ _ _ _ _ _ _ _) (conj _ (conj _ (conj _ (conj _ _))))))).
+    - intros l s Hl. discriminate Hl.
+    - intros l Hl. exfalso. apply Hl. reflexivity.
+    - intros l s Hl. discriminate Hl.
+    - intros l s Hl. discriminate Hl.
+    - constructor. }
+  assert (Hrun : (exists m, constants_states max f = Ok m) \/ constants_states max f = Err EMaxSteps).
+  { unfold constants_states, fp_forward. rewrite Ee. unfold f_block, cfg_block. fold (f_blocks f). rewrite Eb. cbn [bind].
+    destruct (fp_budget floc cmap floc_eqb (backward f) (forward f) (c_trans f) c_join cm_cmp false max [] [block_first_loc eb]) as (Ha & Hb0 & [(n & o & Hn & Ht)|(m2 & l & q2 & Hk)]).
+    - rewrite (Ha n o Ht Hn). destruct (term_done_only f Hinv Hsr Hda e eb Ee Eb dm Hsol n o _ _ Ht HX0) as (m' & ->). left. eexists. reflexivity.
+    - rewrite (Hb0 m2 l q2 Hk). right. reflexivity. }
+  unfold constants_max. destruct Hrun as [(m & Hm)|Hm]; rewrite Hm; cbn [bind]; [|right; reflexivity].
+  left. exact (constants_remap_total f max m Hinv Hsr Hm).
+Qed.
